@@ -86,6 +86,11 @@ def pairing(ctx):
             p = path(f, args[1])
             a = path(f, args[0])
             pos = f.pos_of(st)
+            if p and p.startswith("&") and ("->" in p or "." in p[1:]):
+                # a member sub-object destroyed in place (not an allocation of its own): nothing to pair it with here;
+                # whether destroying it at this point is right is a lifetime question (C05), not a pairing one
+                ctx.note("%s: %s destroys the sub-object %s in place" % (rid, f.loc(st), p))
+                continue
             # the matching deallocate: same pointer, same allocator, post-dominates, nothing frees it in between
             ok = False
             for d in _trait_calls(f, "deallocate"):
